@@ -169,4 +169,17 @@ theorem C09_systemP_Pext (Ω : List World) (D : List Cond) (fin : List (List Con
   · intro A B C; rw [key, key, key]; exact h6 A B C
   · intro A B C; rw [key, key, key]; exact h7 A B C
 
+/-- non-vacuity of `C09_systemP_Pext`: a weakly consistent base with a non-empty infinity layer, `(f|b)` and `(⊥|p)` -/
+def exPx : List Cond := [⟨.atom 2, .atom 0, 1⟩, ⟨.bot, .atom 1, 2⟩]
+
+example : exPx ≠ [] ∧ partE (allWorlds 3) exPx = some ([[⟨.atom 2, .atom 0, 1⟩]] ++ [[⟨.bot, .atom 1, 2⟩]]) := by
+  constructor
+  · decide
+  · decide
+
+/-- and the extended operator then infers `(f|b)` and does not infer `(b|f)` -/
+example : ansP true (allWorlds 3) exPx ⟨.atom 2, .atom 0, 0⟩ = .val true ∧
+    ansP true (allWorlds 3) exPx ⟨.atom 0, .atom 2, 0⟩ = .val false := by
+  constructor <;> decide
+
 end InfOCF
